@@ -120,7 +120,9 @@ func VerifHopRead() {
 // outside the subnet of a root router), symbolic arrival instants and a symbolic minimum delay.
 func VerifRouterProcess() {
 	_, ipnet, _ := net.ParseCIDR("10.0.0.0/24")
-	nicA, nicB := &verifStampNIC{}, &verifStampNIC{}
+	// the attached NICs are slow: a symbolic amount of time passes during every hand-over
+	nicA := &verifStampNIC{busy: []int64{int64(vIntR("busyA", 0, 0, 150)), int64(vIntR("busyA", 1, 0, 150))}}
+	nicB := &verifStampNIC{busy: []int64{int64(vIntR("busyB", 0, 0, 150)), int64(vIntR("busyB", 1, 0, 150))}}
 	r := &Router{
 		ipv4Net: ipnet,
 		nics:    map[string]NIC{"10.0.0.1": nicA, "10.0.0.2": nicB},
@@ -178,9 +180,10 @@ func VerifRouterProcess() {
 	vAssert(len(nicA.chunks) == na && len(nicB.chunks) == nb, "C01: nothing else is delivered: each datagram at most once, only to its destination's NIC; unroutable ones are dropped")
 	switch {
 	case !due0:
-		vAssert(int64(d) == stamp[0]+delay-now && r.queue.peek() == Chunk(sent[0]), "C14: the router sleeps exactly until the head of the queue is due and keeps it queued")
+		// a non-positive duration makes the router wait for the next push: the datagram would be stuck
+		vAssert(d > 0 && r.queue.peek() == Chunk(sent[0]), "C14: a datagram that is not yet due stays queued and the router comes back for it")
 	case !due1:
-		vAssert(int64(d) == stamp[1]+delay-now && r.queue.peek() == Chunk(sent[1]), "C14: the router sleeps exactly until the head of the queue is due and keeps it queued")
+		vAssert(d > 0 && r.queue.peek() == Chunk(sent[1]), "C14: a datagram that is not yet due stays queued and the router comes back for it")
 	default:
 		vAssert(r.queue.peek() == nil, "C14: nothing that is due is left in the router's queue")
 	}
